@@ -24,11 +24,15 @@ var shInt = &shape{kind: "int"}
 var shSkip = &shape{kind: "skip"}
 var shSkipStruct = &shape{kind: "struct", fields: map[string]*shape{"A": shInt}}
 var shRawStruct = &shape{kind: "struct", fields: map[string]*shape{"A": shInt, "x": shSkip}}
+var shText = &shape{kind: "text"} // a TextUnmarshaler: a (strict) string literal or null
+var shTextStruct = &shape{kind: "struct", fields: map[string]*shape{"A": shInt, "x": shText}}
 var shapes = map[string]*shape{
 	"skip": shSkipStruct, "raw": shRawStruct, "unmarshaler": shRawStruct,
 	"array1":        {kind: "array", elem: shInt, n: 1},
 	"slice-of-skip": {kind: "slice", elem: shSkipStruct},
 	"map-of-skip":   {kind: "map", elem: shSkipStruct},
+	"text":          shTextStruct,
+	"text-in-iface": shText,
 }
 
 type acc struct {
@@ -188,6 +192,8 @@ func (a *acc) value(sh *shape, i int) (int, bool) {
 			return a.lenientSkip(i)
 		}
 		return a.strictSkip(i)
+	case "text":
+		return a.str(i)
 	case "int":
 		if j, ok := a.lit(i, "null"); ok {
 			return j, true
